@@ -7,7 +7,12 @@ package main
 
 import (
 	"context"
+	"errors"
 	"fmt"
+	"strings"
+	"time"
+
+	"github.com/mark3labs/flyt/zzvrt/core"
 
 	flyt "github.com/mark3labs/flyt"
 )
@@ -69,6 +74,24 @@ func genC02(tier string) []Scenario {
 			}
 		}
 	}
+	// the budget is re-read on every run: reconfigure the SAME builder-made node between two runs
+	for _, kind := range []int{kFuncRB, kFuncAB, kFuncMix} {
+		for _, n1 := range []int{1, 2, 3} {
+			for _, n2 := range []int{1, 2, 3} {
+				if n1 == n2 {
+					continue
+				}
+				out = append(out, reconfigureScenario(kind, n1, n2))
+			}
+		}
+	}
+	// a context whose deadline falls inside the retry wait: the run is cut short before the next
+	// attempt (and reports the context's error) — it may not jump to the fallback instead
+	for _, kind := range []int{kBase, kBaseFb, kFuncRB} {
+		for n := 2; n <= 3; n++ {
+			out = append(out, deadlineInWaitScenario(kind, n))
+		}
+	}
 	// every item of a batch: sequential, one worker, two workers
 	maxB, maxItems := 4, 3
 	if th {
@@ -91,6 +114,14 @@ func genC02(tier string) []Scenario {
 			}
 		}
 	}
+	// an item that prep hands out as an error Result is still an item: it gets its attempts too
+	for _, c := range []int{0, 2} {
+		for _, fb := range []bool{false, true} {
+			sc := batchScn{name: fmt.Sprintf("retry-batch-error-result-item n=2 c=%d budget=2 fallback=%v", c, fb), n: 2, c: c, budget: 2, fb: fb, errItems: []int{1},
+				shape: shResults, yield: c > 0, execMenu: okOrErrMenu, fbMenu: fbOkOrErr, postMenu: postX, bound: 0, chkPerItem: true, chkPositional: true}
+			out = append(out, sc.scenario())
+		}
+	}
 	// stop-on-error batches: every item that IS executed still gets exactly its own budget
 	for _, c := range []int{0, 2} {
 		for _, budget := range []int{2, 3} {
@@ -105,6 +136,57 @@ func genC02(tier string) []Scenario {
 		}
 	}
 	return out
+}
+
+func reconfigureScenario(kind, n1, n2 int) Scenario {
+	var h *H
+	sp := &spec{id: "n", kind: kind, fb: true}
+	body := func() {
+		sp.n = n1
+		h = newH(sp)
+		h.menu = retryMenu
+		node := h.build(sp)
+		a, err := flyt.Run(h.ctx, node, h.store)
+		h.finish(a, err)
+		// reconfigure through the builder method, then run the same object again
+		node.(*flyt.NodeBuilder).WithMaxRetries(n2)
+		sp.n = n2
+		h.nextRun()
+		a, err = flyt.Run(h.ctx, node, h.store)
+		h.finish(a, err)
+	}
+	return Scenario{Name: fmt.Sprintf("retry-reconfigured-between-runs kind=%s N=%d->%d", kindNames[kind], n1, n2), Body: body, Check: stdCheck(func() string {
+		if h == nil {
+			return "?"
+		}
+		return strings.Join(append(append([]string(nil), h.hist...), h.traceString()), " | ")
+	})}
+}
+
+func deadlineInWaitScenario(kind, n int) Scenario {
+	var h *H
+	w := 10 * time.Millisecond
+	sp := &spec{id: "n", kind: kind, n: n, fb: true, wait: w}
+	body := func() {
+		h = newH(sp)
+		h.menu = retryMenu
+		ctx, _ := core.WithDeadline(context.Background(), core.Now().Add(w/2))
+		h.ctx = ctx
+		node := h.build(sp)
+		a, err := flyt.Run(h.ctx, node, h.store)
+		core.Logf("Run returned (%q, %v) at t=%v", a, err, time.Duration(core.VNow()))
+		s, _, done := simulate(h.root, h.store, h.answers)
+		if !done && err != nil && errors.Is(err, context.DeadlineExceeded) && s.next.ph == pExec && s.next.attempt > 0 {
+			return // cut short by the deadline, right before the next attempt: legitimate
+		}
+		h.finish(a, err)
+	}
+	return Scenario{Name: fmt.Sprintf("retry-deadline-inside-wait kind=%s N=%d wait=%v", kindNames[kind], n, w), Body: body, Check: stdCheck(func() string {
+		if h == nil {
+			return "?"
+		}
+		return h.traceString()
+	})}
 }
 
 var _ = flyt.DefaultAction
